@@ -142,6 +142,11 @@ func (h *Harness) apply(line string) error {
 		for _, x := range f[1:] {
 			h.Flags[x] = true
 		}
+	case "real":
+		// this harness runs the real function although the package directory models it (engine-only models)
+		for _, x := range f[1:] {
+			h.Flags["real:"+x] = true
+		}
 	case "all":
 		return h.apply("//vp:" + rest)
 	default:
@@ -234,6 +239,17 @@ func discoverHarnesses(root string) ([]*Harness, error) {
 			h.NativeStubs[k] = v
 			if _, ok := h.Stubs[k]; !ok {
 				h.Stubs[k] = v
+			}
+		}
+	}
+	for _, h := range out {
+		for fl := range h.Flags {
+			if strings.HasPrefix(fl, "real:") {
+				k := strings.TrimPrefix(fl, "real:")
+				if _, native := h.NativeStubs[k]; native {
+					return nil, fmt.Errorf("%s: //vp:real %s: it is a native stub (package-wide source rewrite) and cannot be undone per harness", h.Name, k)
+				}
+				delete(h.Stubs, k)
 			}
 		}
 	}
